@@ -439,7 +439,12 @@ class Point(HyperbolicObject, projective.Point):
             towards `other`.
 
         """
-        diff = other.proj_data - self.proj_data
+        # pick the representative of other on the same sheet of the
+        # hyperboloid as self, so the direction does not depend on signs
+        products = utils.apply_bilinear(self.proj_data, other.proj_data,
+                                        self.minkowski)
+        aligned = other.proj_data * np.expand_dims(-np.sign(products), axis=-1)
+        diff = aligned - self.proj_data
         return TangentVector(self, diff).normalized()
 
     def get_origin(dimension, shape=(), **kwargs):
